@@ -10,7 +10,7 @@
    Vectors over Z_2 are [list bool] read with [get] (a missing tail is zero), so equality is [veq] (pointwise). *)
 From Coq Require Import ZArith List Bool Arith Sorting.Permutation.
 Require Import C07_Model C07_Gauss C07_Proofs C07_Skip C07_Ident.
-Require C07_Betti C07_InsOnly C07_ELZdefs C07_ELZ C07_Bridge C07_Final ReduceExec.
+Require C07_Betti C07_InsOnly C07_ELZdefs C07_ELZ C07_Bridge C07_Final C07_Rel ReduceExec.
 Import ListNotations.
 Open Scope Z_scope.
 
@@ -87,6 +87,30 @@ Theorem C07_sweep_other_arrows : forall s k R o,
   match o with NIns d _ => d <> k + 1 | NRem u => dim_of s u <> k | NId => True end -> step_rel s k R o = R.
 Proof. exact step_rel_other. Qed.
 Print Assumptions C07_sweep_other_arrows.
+
+(* ---- A1''. the sweep computes THE composed relation, described with representatives ---- *)
+(* [C07_Rel.related s k b e x y]: x a k-cycle of K_b, y a k-cycle of K_e, and there is a family of k-cycles z_b, ..., z_e
+   (z_t in K_t, consecutive ones differing by a boundary of the larger of K_t, K_(t+1)) with x ~ z_b in K_b and z_e ~ y in K_e -
+   i.e. the classes [x], [y] are related by the composition of the inclusion-induced maps and their converses.
+   For every valid sequence the span of the sweep state is exactly the set of these pairs ... *)
+Theorem C07_sweep_is_the_composed_relation : forall s k b e v, valid s = true -> 0 <= k -> (b <= e)%nat -> (e < length s)%nat ->
+  (span (C07_Rel.sweep_state s k b e) v <->
+   exists x y, C07_Rel.related s k b e x y /\ C07_Rel.is_pair (length s) v x y).
+Proof. exact C07_Rel.sweep_is_relation. Qed.
+Print Assumptions C07_sweep_is_the_composed_relation.
+
+(* ... the number r_k(b,e) of the specification is dim dom - dim ker read off that state ... *)
+Theorem C07_rank_is_read_off_the_sweep_state : forall s k b e, (b <= e)%nat -> (e < length s)%nat ->
+  rfun (length s) (rtab s k) (Z.of_nat b) (Z.of_nat e) = rel_rank (length s) (C07_Rel.sweep_state s k b e).
+Proof. exact C07_Rel.rfun_is_sweep_state. Qed.
+Print Assumptions C07_rank_is_read_off_the_sweep_state.
+
+(* ... and does not depend on the presentation: ANY spanning list of the composed relation gives the same number *)
+Theorem C07_rank_of_the_composed_relation : forall s k b e R, valid s = true -> (b <= e)%nat -> (e < length s)%nat ->
+  (forall v, span R v <-> exists x y, C07_Rel.related s k b e x y /\ C07_Rel.is_pair (length s) v x y) ->
+  rfun (length s) (rtab s k) (Z.of_nat b) (Z.of_nat e) = rel_rank (length s) R.
+Proof. exact C07_Rel.rfun_is_relation_rank. Qed.
+Print Assumptions C07_rank_of_the_composed_relation.
 
 (* ---- A3. bars alive at arrow i, dimension k  =  r_k(i,i) (inclusion-exclusion telescopes) ---- *)
 Theorem C07_alive_count_is_rank_at_i : forall s k i, (i < length s)%nat ->
